@@ -475,6 +475,7 @@ func runSimCheck(id, tier string, seed uint64, p propInfo, scratch string, start
 		"exhaustive_subspace": map[string]any{"size": m.enumTotal, "done": m.enumDone, "complete": m.enumDone == m.enumTotal && m.enumTotal > 0},
 		"sampled_cases":       map[string]any{"planned": m.sampledPlan, "done": m.sampledDone},
 		"runs_per_hour":       int(float64(m.evals) / wall * 3600),
+		"seeds_per_hour":      int(float64(m.evals) / wall * 3600), // every case has its own tape seed derived from (VERIF_SEED, property, case number)
 		"simulated_seconds":   m.simSeconds,
 		"faults_fired":        m.faults,
 		"probes":              m.probes,
